@@ -12,7 +12,7 @@ LEVEL_TEXT = ("Exhaustive decision, not sampling: ApiEndpointVersions::matches, 
               "(from A: v>=A; until B: v<B; from-until: A<=v<B, exactly A when A=B; all), overlap <=> some version in both, in both argument orders, "
               "from_until Err iff until<earliest, header version accepted iff v<=max and 400 otherwise. Structural rules add: the ordered pair can only be built by "
               "from_until, every header-policy failure is for_bad_request (400), request_version returns the policy's result unmodified and that version is what "
-              "lookup_route receives. Residue: semver::Version's own Ord (build metadata tie-break) and header text parsing are trusted.")
+              "lookup_route receives. Residue: semver::Version's own Ord (build metadata tie-break) and header text parsing are trusted. Also (R9 = C02.R4): the registration loop tests the new range against every stored range of that path and method.")
 LEVEL_NOTE = ("Trusted base: rustc MIR construction, the extractor, the ~350-line interpreter; assumes semver::Version's PartialOrd is a total order consistent with "
               "semver precedence and that the version order has no least element that matters (the artificial minimum 0.0.0-0 is ignored for Until ranges).")
 EXPLANATION = ("DECIDE rules interpret MIR over order types (obligations = cells = input shape x weak order); CHAIN/WHO-CONSTRUCTS/DOM rules over slices and dominators for the "
@@ -176,17 +176,25 @@ def e4_header_ceiling(ctx):
     f = ctx.need_fn(ctx.ds, R, r"^<versioning::ClientSpecifiesVersionInHeader as versioning::DynamicVersionPolicy>::request_extract_version$")
     adt = "versioning::ClientSpecifiesVersionInHeader"
     fields = [x["name"] for x in ctx.ds.adts[adt]["variants"][0]["fields"]]
-    opaque = [r"^core::fmt::", r"^std::fmt::", r"^http::Request::<T>::headers$", r"^std::string::ToString::to_string$"]
+    # logging and formatting do not take part in the decision: opaque, and the log-level branch of a slog macro is explored both ways
+    opaque = [r"^core::fmt::", r"^std::fmt::", r"^alloc::fmt::", r"^http::Request::<T>::headers$", r"^std::string::ToString::to_string$", r"^slog::", r"<slog::"]
 
     def run(order, parse_result):
         summ = {
             "versioning::parse_header": lambda it, argv, t: parse_result,
             "error::HttpError::for_bad_request": lambda it, argv, t: A.V_opaque("HttpError::for_bad_request"),
         }
-        it = A.Interp(ctx.ds, order, summaries=summ, opaque_callees=opaque, sym_types=SYM_TYPES)
-        vals = {"name": A.V_opaque("header-name"), "max_version": A.V_sym("max")}
-        selfv = A.Cell(A.V_struct(adt, [vals[x] for x in fields]))
-        return A.strip(it.call_fn(f, [A.V_ref(selfv), A.V_ref(A.Cell(A.V_opaque("request"))), A.V_ref(A.Cell(A.V_opaque("log")))]))
+
+        def once(ch):
+            it = A.Interp(ctx.ds, order, summaries=summ, opaque_callees=opaque, sym_types=SYM_TYPES, choices=ch)
+            vals = {"name": A.V_opaque("header-name"), "max_version": A.V_sym("max")}
+            selfv = A.Cell(A.V_struct(adt, [vals[x] for x in fields]))
+            return it, A.strip(it.call_fn(f, [A.V_ref(selfv), A.V_ref(A.Cell(A.V_opaque("request"))), A.V_ref(A.Cell(A.V_opaque("log")))]))
+        outs = A.explore(once)
+        first = outs[0]
+        if any(o != first for o in outs):
+            raise A.LeavesFragment("the outcome depends on a branch outside the fragment (a log level): %s" % sorted(set(map(str, outs)))[:3])
+        return first
     for order in A.weak_orders(["v", "max"]):
         key = "header version v vs max under %s" % A.order_str(order)
         try:
@@ -228,6 +236,9 @@ def e4_header_ceiling(ctx):
             "http::HeaderValue::to_str": to_str,
             "core::str::<impl str>::parse": parse,
             "std::str::<impl str>::parse": parse,
+            # `T::from_str(s)` is what `s.parse::<T>()` calls
+            "std::str::FromStr::from_str": parse,
+            "core::str::FromStr::from_str": parse,
             "error::HttpError::for_bad_request": lambda it, argv, t: A.V_opaque("HttpError::for_bad_request"),
         }
         it = A.Interp(ctx.ds, {"v": 0}, summaries=summ, opaque_callees=[r"^core::fmt::", r"^std::fmt::", r"^alloc::fmt::", r"^std::string::ToString::to_string$"], choices=ch)
@@ -253,7 +264,7 @@ def e4_header_ceiling(ctx):
     ctx.check(R, "for_bad_request-is-400", st == {400}, "status constants named in for_bad_request: %s" % sorted(st or []), nontrivial=False)
     okc = bool(chain) and all(x == ("to_str", ("opaque", "header-value")) or x == ("parse", ("opaque", "text")) for x in chain)
     # parse_header is generic in the parsed type: str::parse::<T> with T instantiated to semver::Version by the policy
-    parses = [t for g in [ph] + ctx.ds.descendants(ph) for bb, t in g.live_calls(r"str::<impl str>::parse$")]
+    parses = [t for g in [ph] + ctx.ds.descendants(ph) for bb, t in g.live_calls(r"str::<impl str>::parse$|str::FromStr::from_str$")]
     inst = [t for bb, t in f.live_calls(r"^versioning::parse_header$")]
     okp = bool(parses) and bool(inst) and all(any("semver::Version" in g for g in t.get("gargs", [])) for t in inst) and \
         all(any(g.startswith("T/") or "semver::Version" in g for g in t.get("gargs", [])) for t in parses)
